@@ -27,6 +27,11 @@ updateEstimate / estimateParameters) is regenerated from the Go source by go2coq
 Tie: harness/c17/accum.go drives the real Initialize / NewObservation / GetEstimate on real pools, logs the schedule per thread and
 CorrAccum.v replays it: bit-identical estimates for the two NormalEstimators on arbitrary binary64 data (acases_*.v).
 Below the schedule model: read / write steps interleaved arbitrarily (ModelThreads / ProofsThreads): owned cells lose no update.
+Round 7: which samples a SAGA epoch evaluates (ModelSaga / ProofsSaga): the workers' Iterate loops read the drawn list through the
+sub-slices of Initialize; for every pool size, every n and every interleaving the evaluated multiset is the drawn one (no remainder
+n mod p dropped). Tie: hook VerifC17SagaTrace logs every f(j, x1) per epoch on the nil pool and on real pools of 1..8 threads; the
+drawn lists are recomputed by the harness with math/rand; CorrCfg.sagacheck compares (sagacases_*.v). Hunt oracle: same statement
+on the implementation. The vector NormalEstimator (dimension >= 2) is driven on pools 1,2,3,4,7 in every run (corpus + generator).
 Supporting evidence (labelled so): a -race build of the same harness under a deadline.
 """
 import glob, json, os, shutil
@@ -34,6 +39,7 @@ import vlib
 
 TARGETS = ["Base/Corr.vo", "C17/Model.vo", "C17/Spec.vo", "C17/Sites.vo", "C17/Carriers.vo", "C17/ProofsMerge.vo",
            "C17/ProofsChunks.vo", "C17/ProofsErr.vo", "C17/ProofsSites.vo", "C17/Corr.vo", "C17/ModelCfg.vo", "C17/ProofsCfg.vo",
+           "C17/ModelSaga.vo", "C17/ProofsSaga.vo",
            "C17/CorrCfg.vo", "C17/SitesGenDefs.vo", "C17/Sites_gen.vo", "C17/ProofsSitesGen.vo",
            "C17/ModelScratch.vo", "C17/ScratchGenDefs.vo", "C17/Scratch_gen.vo", "C17/ProofsScratch.vo",
            "C17/ModelErrFlow.vo", "C17/ProofsErrFlow.vo", "C17/ErrFlow_gen.vo", "C17/ProofsErrFlowGen.vo", "C17/CorrErrFlow.vo",
@@ -62,7 +68,11 @@ PARTIAL = ("Scheduling model plus a read/write interleaving model of the accumul
            "(certified by Coq-Interval for one pool per configuration, compared with the sequential run elsewhere; the log-domain batch estimators "
            "are compared with the sequential run at 1e-9, not recomputed). SAGA logistic regression "
            "partitions the data by pool size and averages: its result depends on the pool size by design; its partition is proved and tied, its "
-           "estimate is compared bit for bit with the same partition executed sequentially (up to 6 attempts because of F-SAGA-THETA-RACE). "
+           "estimate is compared bit for bit with the same partition executed sequentially (up to 6 attempts because of F-SAGA-THETA-RACE); "
+           "round 7: the sample indices every epoch evaluates are modelled (ModelSaga: drawn list read through the workers' sub-slices, any interleaving), "
+           "proved to be the drawn multiset for every pool size / n / schedule and tied per epoch (nil pool: exact sequence; real pools 1..8: same multiset; "
+           "drawn list recomputed with math/rand from the seed) - what SAGA computes at those samples (jit updates, gradient steps, averaging) is still not modelled, "
+           "and the interleaving on a real pool is not observed per worker (only the global log). "
            "matrixEstimator / vectorEstimator mixtures and HMMs, ShapeHmm and the NumericEstimator parameters are compared across pools "
            "(1e-9, NumericEstimator 1e-6), not recomputed by the model. Round 3: freshness of per-thread clones is a hypothesis of the scratch-cell "
            "theorem (fresh_clones_give_disjoint_write_sets) and is decided for the library in two independent ways, neither a proof about Go: "
@@ -390,9 +400,9 @@ def corr(ctx, binary, n, corpus):
     # a shard that produced neither a result nor a Coq error (killed / timed out on an overloaded machine) is evaluated once more, alone
     def again(rs):
         for i, r in enumerate(rs):
-            if not r["ok"] and r["mism"] is None and not (r.get("error") or "").strip():
+            if not r["ok"] and r["mism"] is None and "Error" not in (r.get("error") or ""):
                 rs[i] = vlib.eval_shards([r["path"]], jobs=1)[0]
-                ctx.notes.append("shard %s re-evaluated after an empty coqc result" % os.path.basename(r["path"]))
+                ctx.notes.append("shard %s re-evaluated after a coqc run that ended without a Coq error and without a result (killed / deadline)" % os.path.basename(r["path"]))
     again(rc_)
     again(rt_)
     for st in ext:
@@ -485,7 +495,11 @@ def race_stage(ctx, n):
     summary = {}
     p = os.path.join(rdir, "race.json")
     if os.path.exists(p):
-        summary = json.load(open(p))
+        try:
+            summary = json.load(open(p))
+        except ValueError:
+            summary = {}
+            fails.append({"failure": "race harness wrote an unreadable summary (rc=%s)" % rc, "log": out[-1500:], "kind": "crash"})
         for f in summary.get("failures", []):
             f["kind"] = "oracle"
             fails.append(f)
